@@ -771,6 +771,18 @@ example :
       (match step3 cfgI s (.ibc (.toIbc 5 1 2)) with | .error .insufficient => true | _ => false) &&
       (match step3 cfgI s (.ibc (.toIbc 5 1 1)) with | .ok _ => true | _ => false)) = true := by decide
 
+/-- the hypotheses of `moduleOwned_send_iff` are jointly satisfiable: the empty ledger of the IBC examples is `LedgerOk`, group 5
+is module-owned and bridged on chain 1 -/
+example : LedgerOk ledgerI ∧ bridged cfgI 5 1 = some .moduleOwned := by
+  refine ⟨⟨?_, fun _ => rfl, fun _ _ => rfl⟩, by decide⟩
+  intro a l _
+  have : ∀ l : List Addr, sumL (ledgerI.bal a) l = 0 := by
+    intro l
+    induction l with
+    | nil => rfl
+    | cons b bs ih => simp only [sumL, ih]; rfl
+  simp [this l]
+
 /-- **the ibc-transfer module account keeps no base coin**: in every history of all layers its balance of every group's
 base coin is what it was initially — every base coin it mints (`IBCCoinToBaseCoin`) is paid out, every base coin it receives
 (`BaseCoinToIBCCoin`) is burned, and no bridge operation ever names that account (the base model's flows name neither a
